@@ -15,7 +15,7 @@ ITEM_IDS = ['i1', 'i2', 'i3', 'i4', 'i5', 'i6']
 UNKNOWN = 'ZZ'
 
 RO_LAYOUTS = ['plain', 'between', 'trailing', 'nometa', 'bare', 'blankids', 'noids', 'decoys', 'dupstories']
-PARA_LAYOUTS = ['none', 'between', 'leading', 'trailing']
+PARA_LAYOUTS = ['none', 'between', 'leading', 'trailing', 'idlast']
 TIMINGS = ['all', 'none', 'mixed']
 
 
@@ -59,8 +59,16 @@ def make_ro(story_ids, layout='plain', items=None, para_layout='none', timing='n
         if layout == 'between' and k > 0:
             kids.append(E('roTrigger', text='t%d' % k))
         its = ITEM_IDS[:2] if items is None else items.get(sid, [])
-        kids.append(story(sid, body=story_body(its, para_layout), slug='Story ' + str(sid),
-                          meta=timing_meta(k, timing)))
+        st_ = story(sid, body=story_body(its, para_layout), slug='Story ' + str(sid), meta=timing_meta(k, timing))
+        if para_layout == 'idlast':
+            # the story's own fields after its body: the first child of the story is an item (child index 0), the
+            # storyID comes last - the library finds it by name, not by position
+            head = [c for c in st_ if c.tag in ('storyID', 'storySlug')]
+            for c in head:
+                st_.remove(c)
+            for c in head:
+                st_.append(c)
+        kids.append(st_)
         if layout in ('blankids', 'noids') and k == 0:
             # placeholder stories: a blank <storyID/> (holding an item with a blank <itemID/>) and, in
             # 'noids', one with no storyID at all - no reference, blank or not, may ever select them
